@@ -30,6 +30,10 @@ CHECKS = {
    "runtime monitor: exactly-once / own-answer oracle over recorded call histories with unique tokens, callee-side execution counters, raw-frame injection with FIFO barriers; Go race detector",
    "Real directory server + freshly generated Probe service in-process; concurrent callers over several sessions (and two proxies of one bus.Cache), method bodies parked and released in PRNG order so replies cross, context cancellations, and a raw connection sending every message type at real actions. Every call must return exactly f(own token, own arg) or an error, with per-token execution counts 1 / <=1 / 0 as the property demands. Held on the histories observed (calls, max in flight and reply-order inversions are reported).",
    "Trusts the harness service implementation's counters and the per-connection FIFO + mailbox FIFO argument used as 'processed' barrier. Race reports are recorded, the verdict comes from the behavioural monitor.", "DESIGN.md section 3 C04"),
+ "C06": ("bus", "exploration",
+   "runtime monitor: per-connection authentication-state shadow + per-token execution counters + raw-frame grammar; stream-end decided by quiescence detector; Go race detector",
+   "A real server with a recording dictionary authenticator; 2-4 raw connections per plan send PRNG frame sequences (every type, service, object, action; capability-map variants incl. forged state, wrongly typed / raw-typed credentials, truncated, oversized; work() tokens unique per connection; invalid headers). A token sent before a well-formed authenticate with accepted credentials on that same connection must never execute; an unauthenticated Call to another service must get an Error for its id and the stream must end. Held on the sequences observed.",
+   "The shadow state under-approximates 'authenticated' (only well-formed authenticate requests with accepted string credentials of a delivered message type count), so the oracle never demands more than the statement. Frames that overtake an authentication in progress are not judged.", "DESIGN.md section 3 C06"),
  "C07": ("codec", "exploration",
    "runtime monitor: per-input panic / allocation (runtime.MemStats TotalAlloc) / CPU-time (getrusage) accounting with an in-process resource guard; child-process crash attribution",
    "Feeds random bytes, valid encodings with every length/count/signature-length field replaced by hostile values, and hostile signatures to every decoder entry point (message, dynamic value, signature reader and reflection decoder for random signatures, MetaObject, ObjectReference, ServiceInfo, CapabilityMap, generated stub argument decoders through Receive, signature and IDL parsers); each input must return a value or an error within 64 MiB + 64 B/byte of allocation and 5 s of CPU. Held on the inputs observed.",
@@ -42,6 +46,14 @@ CHECKS = {
    "fault injection at every I/O operation of a scripted scenario on a harness stream + quiescence detector + callback/channel monitors; Go race detector",
    "Enumerates, for K in {1,3,8} concurrent calls plus one subscription and a disconnect callback, a fault (EOF / reset / short count + error) at every client-side I/O operation index, a peer close after every output byte count, a local Close() at every operation, (thorough) pairs of faults, and the early-reply schedule, each under whole and fragmented reads. Oracle: every call returns, success only with its own reply, later calls fail, events channel closed, callback exactly once. The enumeration over operation indexes is complete for these scenarios; schedules within a plan are sampled.",
    "The harness stream models a failed connection as failing all later operations and waking the pending read (like a reset socket). 'Never returns' is decided by process quiescence.", "DESIGN.md section 3 C11"),
+ "C13": ("bus", "exploration",
+   "runtime monitor: per-subscriber event logs checked for exactly-once / order / completeness against logical-clock-stamped emissions; missing events decided by quiescence detector; raw registerEvent/unregisterEvent connection with FIFO barrier; Go race detector",
+   "Generated SubscribeTick/SubscribeOther subscribers on the same proxy, same connection and other connections, one emitter, PRNG interleavings incl. concurrent subscribe on one proxy with an emission right after the first return and cancel-of-last racing subscribe. Each subscriber must receive, strictly increasing and of its own signal only, every emission made entirely between its acknowledgement and its cancel request; its channel must close after cancel; on the raw connection no event may follow the unregister reply. Held on the interleavings observed.",
+   "The harness requests a cancel only after the subscriber holds every emission made so far (events concurrent with subscribe/cancel are not demanded). One known finding (event of an in-progress emission after the unregister reply) is listed in KNOWN_FINDINGS.txt.", "DESIGN.md section 3 C13"),
+ "C16": ("bus", "exploration",
+   "runtime monitor: per-object termination-hook counters, per-token execution counters, logical-clock stamps of removal acknowledgements; quiescence detector for subscriber notification; Go race detector",
+   "Sequential then concurrent PRNG plans of Service.Add / call / SubscribeTick / Service.Remove / remote terminate() / repeated removal / calls after removal on a fresh Probe service. For every acknowledged removal: hook ran exactly once, calls and terminate started after the acknowledgement fail without reaching the object, subscribers acknowledged before the removal started get their channel closed, live objects keep answering. Held on the plans observed.",
+   "Calls and subscriptions concurrent with a removal are not judged.", "DESIGN.md section 3 C16"),
  "C17": ("bus", "exploration",
    "runtime monitor: per-handler closer/queue-close counters with logical-clock stamps, monitor table updated atomically with MakeHandler; quiescence detector; child-crash detection; Go race detector (races in bus/net are violations)",
    "2-12 goroutines do PRNG-chosen MakeHandler / RemoveHandler / self-removing filters / peer frames / Close / peer close on one real endpoint over a harness stream. At quiescence every handler registered before shutdown has closer==1 then queue closed once, none is consulted after its closer, removing unknown or removed ids fails, ids are not handed out while held; panics (double close, send on closed channel) are child crashes; deadlocks are decided by process quiescence. Held on the interleavings observed.",
